@@ -183,6 +183,21 @@ pub mod verif {
     sources
   }
 
+  static DISABLED_LOOP_SUBPASSES: std::sync::atomic::AtomicU32 =
+    std::sync::atomic::AtomicU32::new(0);
+  pub const LOOP_ALGEBRAIC_OPTIMIZATION: u32 = 1;
+  pub const LOOP_INDUCTION_VARIABLE_ELIMINATION: u32 = 2;
+
+  /// Disables the given loop sub-passes (bit mask) process-wide, to attribute a behaviour change
+  /// of the loop optimization to one of them.
+  pub fn set_disabled_loop_subpasses(mask: u32) {
+    DISABLED_LOOP_SUBPASSES.store(mask, std::sync::atomic::Ordering::SeqCst);
+  }
+
+  pub(crate) fn loop_subpass_disabled(bit: u32) -> bool {
+    DISABLED_LOOP_SUBPASSES.load(std::sync::atomic::Ordering::SeqCst) & bit != 0
+  }
+
   /// Unused name elimination alone.
   pub fn run_unused_name_elimination(sources: &mut samlang_ast::mir::Sources) {
     super::unused_name_elimination::optimize_sources(sources);
